@@ -84,6 +84,14 @@ fn check_template(case: &Value, t: &Template, root: &Path, offset: i64) -> Optio
         fs::write(root.join(n), b).unwrap();
         bystanders.insert(n.to_string(), b.as_bytes().to_vec());
     }
+    // ... and neighbours of the archive names that no index produces: the newest archive's name with ".tmp" / "~" / ".1"
+    // behind it (FixedWindow.tla: a roll touches the names base .. base+count of the pattern and nothing else)
+    for suffix in [".tmp", "~", ".part"] {
+        let p = format!("{}{}", name_of(base as i64 - offset), suffix);
+        fs::create_dir_all(Path::new(&p).parent().unwrap()).unwrap();
+        fs::write(&p, suffix).unwrap();
+        bystanders.insert(rel(&p), suffix.as_bytes().to_vec());
+    }
     let roller: Box<dyn Roll> = if t.name == "env" || (case["kind"] == "delete" && base % 2 == 1) {
         // built from a configuration value; `base` is left out where it is the default 0
         let doc = if case["kind"] == "delete" {
